@@ -852,7 +852,20 @@ func run(c *fw.Ctx, idx int) {
 					w.fail("C17/remove/consensus-data-kept/"+role, "the removed peer shut down but its Raft data folder is still in place", nil)
 				}
 			}
-			vm.peer.Node.Close()
+			if doneOK {
+				vm.peer.Node.Close()
+			} else {
+				// a removed peer that did not stop itself is in an unknown state and its own
+				// Shutdown may never return (reported above): it gets 20 s, then the case goes
+				// on without waiting for it
+				closed := make(chan struct{})
+				go func(n *sim.Node) { n.Close(); close(closed) }(vm.peer.Node)
+				select {
+				case <-closed:
+				case <-time.After(20 * time.Second):
+					c.Count("removed_peer_close_abandoned", 1)
+				}
+			}
 			vm.alive = false
 			// re-homing happened before it left
 			if repin {
